@@ -28,7 +28,7 @@ META = dict(
     bounds=dict(quick='sorted set: |A| <= 3, |B| <= 2, |C| <= 1, elements int32 / (int,int) tuples / [int,int] lists over 0..3; ordered map: <= 3 entries, int32 keys (OrderedMapSerializedKey with Int32Type, OrderedMap with an injective key-pickling stub), values symbolic',
                 thorough='|A| <= 4, |B| <= 3, |C| <= 2'),
     assumptions=['representation invariant of SortedSet: _items strictly ascending; of OrderedMap: keys pairwise distinct by their flat encoding and _index[flat(key_i)] == i',
-                 'elements of one totally ordered type (sets whose elements are themselves sets are only partially ordered: see the nested-sets job)'],
+                 'elements of one totally ordered type; sets of sets (ordered by their items) are covered by the nested-sets job'],
     stubs=['pickle.dumps(key) for symbolic keys: an injective tagged tuple', 'dict(...) over symbolic keys: kit.SymDict (compares keys instead of hashing)'],
     outside=['in-place operators beyond those listed', 'elements of mixed types'],
 )
@@ -207,6 +207,23 @@ def h_nested_sets(V):
     V.tag('nested_kind', 'sortedset')
     for i, e in enumerate(elems):
         V.check(e in s, 'set:nested-set-element-found-after-add', note='element %d of %d' % (i, n))
+    # no duplicates, a probe set is found exactly when it equals an inserted one, removal works
+    def same(a, b):
+        return len(a._items) == len(b._items) and (sx.land(*[x == y for x, y in zip(a._items, b._items)]) if a._items else True)
+    distinct = []
+    for e in elems:
+        if not any(sx.conc_bool(same(e, d)) for d in distinct):
+            distinct.append(e)
+    V.check(len(s) == len(distinct), 'set:nested-sets-no-duplicates', note='%d stored, %d distinct' % (len(s), len(distinct)))
+    k = V.choice('probe_size', 3)
+    pv = [V.int('p%d' % j, 0, 2) for j in range(k)]
+    V.assume(ascending(pv))
+    probe = util.sortedset()
+    probe._items = list(pv)
+    V.check(sx.iff(probe in s, sx.lor(*[same(probe, d) for d in distinct])), 'set:nested-set-membership-is-equality-with-a-member')
+    s.remove(elems[0])
+    V.check(elems[0] not in s and len(s) == len(distinct) - 1 and all(d in s for d in distinct if not sx.conc_bool(same(d, elems[0]))),
+            'set:nested-set-remove')
 
 
 # ---- ordered map -----------------------------------------------------------------------------------
